@@ -378,6 +378,26 @@ func c16r3(c *Check) {
 			_ = idx
 		}
 	}
+	// each section's priority is its own: nothing carried over from the previous section
+	rws := c.P.Func("persister", "", "ReadWhisperSchemas")
+	prioF := c.P.Field("persister", "Schema", "Priority")
+	var prioStore *ssa.Store
+	allInstrs(rws, func(in ssa.Instruction) {
+		if st, ok := in.(*ssa.Store); ok {
+			if fa, ok := st.Addr.(*ssa.FieldAddr); ok && fieldOfAddr(fa) == prioF {
+				prioStore = st
+			}
+		}
+	})
+	if prioStore == nil {
+		anchorFail("ReadWhisperSchemas: store into Schema.Priority not found")
+	}
+	if l := innermostLoop(loopsOf(rws), prioStore.Block()); l == nil {
+		c.Violate("persister.ReadWhisperSchemas priority per section", c.At(prioStore), "Schema.Priority is not assigned inside the loop over the sections")
+	} else {
+		why := loopCarried(c.P, prioStore.Val, l, prioStore)
+		c.Judge(why == "", "persister.ReadWhisperSchemas priority per section", c.At(prioStore), "computed from this section's `priority` setting (default 0) and its position only", "a section's priority depends on an earlier section: "+why+" — a section without `priority` inherits the last one given, so the rule order (first match wins) is not the documented one")
+	}
 	c.Judge(okFirst, "persister.WhisperSchemas.Match returns at the first matching schema", c.AtFn(m), "return inside the range loop over the (sorted) schemas", "Match does not stop at the first matching rule in slice order (e.g. it keeps scanning and returns the last match)")
 	rs := c.P.Func("persister", "", "ReadWhisperSchemas")
 	sorted := false
